@@ -29,8 +29,8 @@ def run():
                   note="violated: %s" % r["violated"])
     # 2. histories from the real code
     (binary,) = vlib.build_harness(["sem_harness"])
-    nruns = 48 if chk.thorough() else 12
-    nhist = 60 if chk.thorough() else 25
+    nruns = 64 if chk.thorough() else 16
+    nhist = 120 if chk.thorough() else 80
     runs = []
     for i in range(nruns):
         threads = [1, 2, 4, 3][i % 4]
